@@ -543,6 +543,10 @@ def check_cf_estimator(chk, drv, cfg, dseed):
         return
     chk.d(len(calls) == 1, 'one targeting_step call per partition', case)
     for full, out, probes in calls:
+        # correspondence of the call itself: g0 is passed as 1 - g1 (after the requested truncation of g1)
+        chk.k(allclose(np.asarray(full['pa0'], dtype=float).tolist(), 1 - np.asarray(full['pa1'], dtype=float),
+                       rtol=1e-12),
+              '%s passes pa0 = 1 - pa1 to targeting_step' % cfg['estimator'], {'case': case})
         pre = all(bool(np.all((np.asarray(full[k]) > 0) & (np.asarray(full[k]) < 1))) for k in ('py_a', 'py_n', 'pa1'))
         if not pre:
             chk.discard('learner predictions outside (0,1): precondition of the targeting step not met')
@@ -597,7 +601,7 @@ def check_unit_exact(chk, drv, rng, reps):
 
 # ------------------------------------------------------------------------------------------------ driver
 def tmle_cells(rng, tier):
-    reps = 2 if tier == 'quick' else 12
+    reps = 4 if tier == 'quick' else 40
     for outcome in ('binary', 'continuous'):
         for missing in ('none', 'nomodel', 'model'):
             for gkind in ('none', 'sym', 'asym'):
@@ -626,7 +630,7 @@ def run(chk, drv, rng, tier):
     for cfg, dseed in tmle_cells(rng, tier):
         check_tmle_case(chk, drv, cfg, dseed)
     # cross-fit targeting step, direct
-    reps = 3 if tier == 'quick' else 25
+    reps = 5 if tier == 'quick' else 60
     for outcome in ('binary', 'continuous'):
         for k in (2, 3, 4):
             for gclip in (None, (0.1, 0.9), (0.3, 0.6)):
@@ -635,7 +639,7 @@ def run(chk, drv, rng, tier):
                                lo=-3.5, hi=41.25)
                     check_cf_direct(chk, drv, cfg, int(rng.integers(0, 2 ** 31 - 1)))
     # cross-fit estimators end to end
-    reps = 1 if tier == 'quick' else 6
+    reps = 2 if tier == 'quick' else 12
     for estimator, ks in (('SingleCrossfitTMLE', (2, 3)), ('DoubleCrossfitTMLE', (3,))):
         for outcome in ('binary', 'continuous'):
             for learner in ('glm', 'logistic'):
@@ -647,6 +651,10 @@ def run(chk, drv, rng, tier):
                         check_cf_estimator(chk, drv, cfg, int(rng.integers(0, 2 ** 31 - 1)))
     check_unit_exact(chk, drv, rng, 40 if tier == 'quick' else 400)
     chk.extra['exhaustive'] = False
+    nd = sum(chk.discards.values())
+    if nd > 0.1 * max(1, chk.evals):
+        # too few surviving cases: inconclusive (exit 2 through check.py's handler), never a silent pass
+        raise RuntimeError('C03 inconclusive: %d of %d cases discarded (%r)' % (nd, chk.evals, chk.discards))
     chk.extra['config_cells'] = ('TMLE.fit: 2 outcome types x 3 missingness modes x 3 g-bound kinds x 2 covariate sets = '
                                  '36 cells; targeting_step: 2 x 3 split counts x 3 clip settings = 18 cells; estimators: '
                                  '2 classes x 2 outcome types x 2 learners')
